@@ -172,7 +172,7 @@ func (p *FieldRanges) CheckValid(isMessageSet bool) error {
 			return errors.New("invalid field number: %d", r.Start())
 		case !isValidFieldNumber(r.End(), isMessageSet):
 			return errors.New("invalid field number: %d", r.End())
-		case !(r.Start() <= r.End()):
+		case !(r[0] < r[1]): // not r.Start() <= r.End(): End() wraps around for r[1] == math.MinInt32
 			return errors.New("invalid range: %v", r)
 		case !(rp.End() < r.Start()) && i > 0:
 			return errors.New("overlapping ranges: %v with %v", rp, r)
